@@ -35,6 +35,10 @@ REQUIRED_THEOREMS = [
     "dispatch_bridge", "dispatch_pairs", "load_class_source", "load_dim_override_source",
     "import_xyz_bridge", "parse_tet_bridge", "xyz_round_trip_source", "tet_round_trip_source", "xyz_reads_reference_source",
     "tet_reads_reference_source",
+    # round 5: parse_off_data, parse_vertex + parse_obj_data read from the source; reader . writer = restrict from the source for obj, off
+    "parse_off_bridge", "off_record_bridge", "parse_obj_bridge", "obj_round_trip_source", "off_round_trip_source_actual",
+    "off_round_trip_source_partial", "obj_reads_reference_source", "off_reads_reference_source_actual",
+    "obj_save_load_pipeline_source", "tet_save_load_pipeline_source", "xyz_save_load_pipeline_source",
 ]
 TRUSTED = [
     "Lean 4.33.0 kernel; axioms ⊆ {propext, Classical.choice, Quot.sound}",
@@ -54,7 +58,7 @@ ASSUMPTIONS = ["agreement model/implementation is established on the meshes expl
                "coordinates are finite doubles (NaN/inf not generated); STL coordinates stay inside the binary32 range"]
 RULE = ("round 3 adds: histories on one mesh object (save, save again, save to a second format vs a fresh copy, load->save->load), "
         "by-value snapshots of the mesh before/after every save, input representations (Python int, numpy int64/float32/float64 rows and "
-        "scalars, tuples, Vec; faces/edges as tuples/numpy int32/int64 rows), empty and duplicated inputs, load(dim=) override, attribute "
+        "scalars, tuples, Vec; faces/edges as tuples/numpy int32/int64 rows), empty and duplicated inputs, faces with a repeated vertex, load(dim=) override, attribute "
         "element types bool/int/float/complex/str incl. vector-valued. "
         "meshes: point clouds, polylines, triangle/quad/mixed/polygon surfaces (manifold generators of vlib/gen/mesh.py), tet and hex "
         "volumes, declared edges, geogram attributes (bool/int/float, arity 1-3, on vertices/edges/faces/corners/cells), adversarial "
@@ -69,8 +73,8 @@ RULE = ("round 3 adds: histories on one mesh object (save, save again, save to a
 _IO = "mouette/mesh/io/"
 SOURCE_MAP = {
     _IO + "obj.py::import_obj": "modelled: open/readlines glue around parse_obj_data (token-level file)",
-    _IO + "obj.py::parse_vertex": "modelled: readIdx1 of Model/IO.lean (the `v/vt/vn` forms are outside the property)",
-    _IO + "obj.py::parse_obj_data": "translated: line-prefix dispatch table only (Generated.C04Tables.objRows, obj_rows_bridge); the branch bodies are hand-modelled (stepObj)",
+    _IO + "obj.py::parse_vertex": "translated: whole body evaluated for a token without '/' (Generated.C04R.parseVertex, parse_obj_bridge)",
+    _IO + "obj.py::parse_obj_data": "translated: whole body: line loop with its branch bodies, then the loop over the face records (Generated.C04R.objLine / objCorner / parseObj, parse_obj_bridge); vn / vt / corners with a texture or normal index leave the domain; also the prefix table (obj_rows_bridge)",
     _IO + "obj.py::export_obj": "translated: whole body, statement by statement (Generated.C04W.exportObj, export_obj_bridge), under 'no uv_coords / normals attribute'",
     _IO + "medit.py::parse_field": "modelled: readField (the translator pins `[int(u.strip()) - 1 for u in line][:nelem]` textually)",
     _IO + "medit.py::import_medit": "translated: (keyword, container, arity) dispatch table only (Generated.C04Medit.rows, medit_rows_bridge); the deque loop is hand-modelled (stepMedit)",
@@ -87,7 +91,7 @@ SOURCE_MAP = {
     _IO + "geogram_ascii.py::export_attribute": "modelled: Geo.exportChunks (attribute chunks)",
     _IO + "geogram_ascii.py::export_geogram_ascii": "modelled: Geo.exportGeo / exportChunks",
     _IO + "off.py::import_off": "modelled: open/readlines glue around parse_off_data",
-    _IO + "off.py::parse_off_data": "modelled: importOff / stepOff of Model/IO.lean",
+    _IO + "off.py::parse_off_data": "translated: whole body (Generated.C04R.offRecord / parseOff, parse_off_bridge); *_corners bookkeeping outside the token-level mesh, arity-2 branch outside the domain",
     _IO + "off.py::export_off": "translated: whole body (Generated.C04W.exportOff, export_off_bridge)",
     _IO + "tet.py::import_tet": "modelled: open/readlines glue around parse_tet_data",
     _IO + "tet.py::parse_tet_data": "translated: whole body (Generated.C04R.parseTet, parse_tet_bridge); deque()/strip()/split() are the token-level glue",
@@ -203,10 +207,13 @@ def gen_attrs(rng, kinds, exotic=False):
 
 def base_mesh(rng, tier, want=None):
     big = tier != "quick"
-    kind = want or rng.choice(["pc", "poly", "tri", "quad", "mixed", "polygon", "tet", "hex", "tri+edges", "tet+hex", "tet+tri", "dup", "empty"])
+    kind = want or rng.choice(["pc", "poly", "tri", "quad", "mixed", "polygon", "tet", "hex", "tri+edges", "tet+hex", "tet+tri", "dup", "empty", "degen"])
     E, F, C = [], [], []
     if kind == "empty":
         V = []
+    elif kind == "degen":
+        V = [[0, 0, 0], [1, 0, 0], [1, 1, 0], [0, 1, 0], [2, 0.5, 1]]
+        F = rng.choice([[[0, 1, 2], [0, 2, 2]], [[0, 1, 2, 1], [2, 1, 4]], [[0, 1, 2, 3, 1], [2, 1, 4]], [[3, 3, 0], [0, 1, 2]]])
     elif kind == "dup":
         V = [[0, 0, 0], [1, 0, 0], [1, 1, 0], [0, 1, 0], [2, 0.5, 1]]
         F = [[0, 1, 2], [0, 1, 2], [0, 2, 3], [2, 1, 4], [0, 2, 3]] if rng.random() < 0.5 else [[0, 1, 2, 3], [0, 1, 2, 3], [2, 1, 4]]
@@ -244,7 +251,7 @@ def base_mesh(rng, tier, want=None):
         V = V + [[0.5, 0.5, 2.0]]
         C = C + [[4, 5, 6, 8]]
     V = [[float(c) for c in v] for v in V]
-    if kind == "tri+edges" or (F and rng.random() < 0.3):
+    if kind == "tri+edges" or (F and kind != "degen" and rng.random() < 0.3):      # (sides of a degenerate face can be self-loops: no declared edges there)
         # declared (hard) edges: some are sides of faces, some are not
         sides = sorted({(min(f[i], f[(i + 1) % len(f)]), max(f[i], f[(i + 1) % len(f)])) for f in F for i in range(len(f))})
         cand = rng.sample(sides, min(len(sides), rng.randint(1, 4)))
@@ -271,7 +278,7 @@ def _set_rep(rng, case):
 
 def cases(rng, tier):
     n_rt, n_ref = (2400, 1000) if tier == "quick" else (14000, 6000)
-    wants = ["pc", "poly", "tri", "quad", "mixed", "polygon", "tet", "hex", "tri+edges", "tet+hex", "tet+tri", "dup", "empty"]
+    wants = ["pc", "poly", "tri", "quad", "mixed", "polygon", "tet", "hex", "tri+edges", "tet+hex", "tet+tri", "dup", "empty", "degen"]
     # one deterministic sweep kind x format first, then random
     sweep = [(k, f) for k in wants for f in IO.FORMATS]
     for i in range(n_rt):
@@ -329,7 +336,7 @@ def cases(rng, tier):
     for i in range(n_ref):
         fmt = IO.FORMATS[i % 7] if i < 28 else rng.choice(IO.FORMATS)
         want = {"tet": ["tet", "hex", "pc"], "xyz": ["pc"], "off": ["tri", "quad", "mixed", "polygon", "pc"],
-                "stl": ["tri"], "obj": ["pc", "poly", "tri", "quad", "mixed", "polygon", "tri+edges"],
+                "stl": ["tri"], "obj": ["pc", "poly", "tri", "quad", "mixed", "polygon", "tri+edges", "degen"],
                 "mesh": ["pc", "poly", "tri", "quad", "mixed", "tet", "hex", "tri+edges", "tet+hex", "tet+tri"],
                 "geogram_ascii": ["pc", "poly", "tri", "quad", "mixed", "polygon", "tet", "hex", "tri+edges", "tet+hex", "tet+tri"]}[fmt]
         kind, V, E, F, C = base_mesh(rng, tier, rng.choice(want))
@@ -1286,6 +1293,20 @@ def _lean_str(x):
     return '"' + x.replace("\\", "\\\\").replace('"', '\\"') + '"'
 
 
+def _with_stub(gen_name, fn):
+    """run a translation site; when it raises, Generated/<gen_name>.lean is replaced by a stub without definitions, so that the bridges
+    fail to build against THIS tree instead of silently building against the file of an earlier tree"""
+    def run():
+        try:
+            return fn()
+        except Exception as e:  # noqa
+            msg = str(e).replace("-/", "- /").replace("\n", " ")[:300]
+            T.write_generated(gen_name, f"/- TRANSLATION FAILED for the current source tree: {type(e).__name__}: {msg}\n"
+                                        "   (stub without definitions: every bridge that needs this file fails to build) -/\n")
+            raise
+    return run
+
+
 def translate():
     def site2():
         rows, sizes, special = _geo_type_tables()
@@ -1333,13 +1354,13 @@ def translate():
         txt, detail = CT.readers()
         T.write_generated("C04Readers", txt)
         return detail
-    return [T.site("mouette/mesh/io/{xyz,tet}.py: reader bodies import_xyz (line loop), parse_tet_data (deque, header counts, range loops)", site_readers)] + \
+    return [T.site("mouette/mesh/io/{xyz,tet,off,obj}.py: reader bodies import_xyz, parse_tet_data, parse_off_data, parse_vertex + parse_obj_data", _with_stub("C04Readers", site_readers))] + \
            [T.site("mouette/mesh/io/{off,tet,xyz,medit,obj,stl}.py: writer bodies export_off, export_tet, export_xyz, export_medit (+count_faces, "
-                   "count_cells), export_obj, Binary_STL_Writer.{__init__,_write_header,_write_triangle,write} read statement by statement", site_writers),
-            T.site("mouette/mesh/io/io.py: read_by_extension / write_by_extension tables; mesh.py: load, _instanciate_raw_mesh_data", site_dispatch),
-            T.site("mouette/mesh/io/medit.py: import_medit dispatch (keyword, container, arity)", site),
-            T.site("mesh_attributes.py: Attribute.Type.from_string/to_string/byte_size; obj.py: parse_obj_data line-prefix dispatch", site2),
-            T.site("mouette/mesh/mesh.py: save() ignore_elements guards (keyword, containers, replace vs clear-shared)", site3)]
+                   "count_cells), export_obj, Binary_STL_Writer.{__init__,_write_header,_write_triangle,write} read statement by statement", _with_stub("C04Writers", site_writers)),
+            T.site("mouette/mesh/io/io.py: read_by_extension / write_by_extension tables; mesh.py: load, _instanciate_raw_mesh_data", _with_stub("C04Dispatch", site_dispatch)),
+            T.site("mouette/mesh/io/medit.py: import_medit dispatch (keyword, container, arity)", _with_stub("C04Medit", site)),
+            T.site("mesh_attributes.py: Attribute.Type.from_string/to_string/byte_size; obj.py: parse_obj_data line-prefix dispatch", _with_stub("C04Tables", site2)),
+            T.site("mouette/mesh/mesh.py: save() ignore_elements guards (keyword, containers, replace vs clear-shared)", _with_stub("C04Save", site3))]
 
 
 MANIFEST = {
